@@ -22,8 +22,8 @@ OUTSIDE = sched.OUTSIDE + ['the byte-level persistence of environments (C14)']
 BOUNDS = {'quick': {'tasks': '2 (all 3 graphs, 1 worker), 3-task chain / fan-in / hard-then-soft chain with 1 worker',
                     'initial environment': 'solver-chosen under the invariant', 'outcomes': KINDS,
                     'depth': 'every run, first K = 22+11N+6W steps'},
-          'thorough': {'tasks': '<= 3', 'graphs': 'all 27 labelled graphs on 3 tasks (W=1), 2-task graphs W<=2',
-                       'outcomes': KINDS, 'depth': 'W=1: K = 22+11N+6W established by the unwinding query (every run is complete within K); W=2: first K steps of every run (unwinding query out of reach)'}}
+          'thorough': {'tasks': '<= 3', 'graphs': 'all 27 labelled graphs on 3 tasks (W=1), 2-task graphs W=1 (two workers: outside, queries need 30-75 min from an arbitrary initial environment)',
+                       'outcomes': KINDS, 'depth': 'W=1 and (<= 2 tasks or no soft edge): K = 22+11N+6W established by the unwinding query (every run is complete within K); otherwise first K steps of every run (unwinding query out of reach)'}}
 EXPLANATION = ('extracted thread automata + z3 bounded model checking (QF_BV) of ONE run from an arbitrary persisted environment (inductive step over '
                'histories of runs); stale-result and needless re-execution conditions decided at termination; counterexamples replayed on real threads')
 extra_coverage = sched.extra_coverage
@@ -155,7 +155,7 @@ def _job(n, hard, soft, w, tier, seed=0):
 
 
 def jobs(tier):
-    return sched.standard_jobs(tier, _job, light=('n2w2-h10-s_',))
+    return sched.standard_jobs(tier, _job, light=('n2w2-h10-s_',), no_w2=True)
 
 
 def replay(rp):
